@@ -73,8 +73,11 @@ class Enum:
         m = self.max()
         if m == 1 or m == 0:
             return 1
+        elif m < 0:
+            raise ValueError("math domain error")
         else:
-            return math.floor(math.log2(m) + 1)
+            # exact for every size (math.log2 works on doubles and is off by one from 2^49 - 1 on)
+            return m.bit_length()
 
     def max(self) -> int:
         """Get max enum value."""
